@@ -9,6 +9,7 @@ import Rooc.Pre.Expand
 import Rooc.Sem
 import Rooc.Proofs.Field
 import Rooc.Proofs.Pre
+import Rooc.Proofs.Iter
 import Mathlib.Algebra.BigOperators.Group.List.Basic
 namespace Rooc.Props.C06
 set_option linter.unusedSectionVars false
@@ -185,6 +186,37 @@ theorem zip_len {β : Type} (ls : List (List β)) (hne : ls ≠ []) : (zip ls).l
   zipN_length _ ls hne (Nat.le_refl _)
 
 example : zip [[1, 2, 3], [4, 5]] = [[1, 4], [2, 5]] := by decide
+
+/-! ### expansion = expansion of the hand-unrolled text (iteration fragment, `Rooc/Pre/Iter.lean`) -/
+section fragment
+variable {α : Type} [Arith α]
+
+/-- **`expand_eq_unroll`**: on the modelled fragment (scoped `sum / prod / avg / min / max / all / any /
+xor` over ranges, literal arrays, `enumerate`, `zip`, nested and destructuring iterations, compound
+variables with integer index expressions, block functions, all binary operators), expanding a model
+expression in an environment gives exactly the expression obtained by expanding its hand-unrolled
+form — every iteration value substituted as a literal in iteration order, every aggregate replaced by
+the explicit expression — in the EMPTY environment; and one fails iff the other does. -/
+theorem expand_eq_unroll (env : Env) (e : ME) :
+    (expand env e : Except IErr (Exp α)).toOption = (unroll env e >>= expand []).toOption :=
+  Rooc.Proofs.Iter.expand_unroll env e
+
+/-- the hand-unrolled form is free of iteration constructs -/
+theorem unroll_is_flat (env : Env) (e e' : ME) (h : unroll env e = .ok e') : e'.flat = true :=
+  Rooc.Proofs.Iter.unroll_flat env e e' h
+
+/-- non-vacuity: `sum(i in 0..3) { x_i }` unrolls to `x_0 + (x_1 + x_2)` and both expand to the same tree -/
+example :
+    let p : ME := .agg .sum [⟨["i"], .range (.lit 0) (.lit 3) false⟩] (.cvar "x" [.var "i"])
+    (unroll [] p).toOption.map ME.flat = some true ∧
+    ((expand [] p : Except IErr (Exp α)).toOption.map (fun _ => ())) = some () := by
+  refine ⟨?_, ?_⟩
+  · cases h : unroll [] (ME.agg .sum [⟨["i"], .range (.lit 0) (.lit 3) false⟩] (.cvar "x" [.var "i"])) with
+    | error e => simp [unroll, iterate, envs, It.shapeOk, declareAll, Env.get, Src.rows, CE.eval, rangeVals, intsFrom, mapE, bindRow, unrollIdx, explicit] at h
+    | ok e' => simp [unroll_is_flat [] _ e' h]
+  · simp [expand, iterate, envs, It.shapeOk, declareAll, Env.get, Src.rows, CE.eval, rangeVals, intsFrom, mapE, bindRow, idxFrag, aggregate]
+
+end fragment
 
 /-! ### names: `flatten_variable_name` -/
 
